@@ -166,6 +166,38 @@ def run(ctx):
             ctx.distinct.add_rows(np.full(le.size, p), np.full(le.size, lo), np.full(le.size, hi), u)
         if ci < 3:
             ctx.sample({"index": p, "lower": lo, "upper": hi, "u": grid[:6].tolist()})
+    # ---- history: one configuration / spectrum object, edited in place and copied between calls
+    cfg = NssConfig()
+    cfg.simulation.spectrum = Simulation.PowerSpectrum(index=2.0, lower_bound=6.0, upper_bound=12.0)
+    sp_obj = S.Spectra(cfg)
+    grid = np.minimum(np.linspace(0, 1, 41), 1 - 2.0**-53)
+    edits = [("index", 3.0), ("index", 1.0), ("upper_bound", 9.0), ("lower_bound", 7.5), ("index", 0.5), ("index", 2.0), ("copy", {"index": 2.7, "lower_bound": 6.5, "upper_bound": 11.0}), ("copy", {"index": 1.5})]
+    for what, val in edits:
+        if what == "copy":
+            cfg.simulation.spectrum = cfg.simulation.spectrum.model_copy(update=val)
+        else:
+            setattr(cfg.simulation.spectrum, what, val)
+        spc = cfg.simulation.spectrum
+        cur.clear()
+        cur.update(kind="power", lo=spc.lower_bound, hi=spc.upper_bound)
+        ctx.count("history")
+        wit = {"edit": [what, val], "index": spc.index, "lower": spc.lower_bound, "upper": spc.upper_bound}
+        try:
+            with rngctl.stub(rngctl.cycling(grid)) as spy_:
+                le, n1, n2 = Spectra(sp_obj, grid.size)
+        except PostBroken:
+            ctx.violation("history", f"after editing the spectrum object ({what} -> {val}) the samples / factors no longer satisfy the bounds or the product (index {spc.index}, bounds ({spc.lower_bound}, {spc.upper_bound}))", wit)
+            continue
+        except Exception as e:
+            ctx.exception("history", "Spectra raised after the spectrum object was edited", e, wit)
+            continue
+        u_ = np.minimum(np.concatenate([np.ravel(d_) for d_ in spy_.draws()]), 1.0)
+        worst_h = max(abs(float(cdf_decimal(li, spc.index, spc.lower_bound, spc.upper_bound) - D(float(ui)))) for ui, li in zip(u_, le))
+        p_ = spc.index
+        a_, b_ = D(10) ** D(spc.lower_bound), D(10) ** D(spc.upper_bound)
+        norm_ref = float(1 / (b_ / a_).ln()) if p_ == 1 else float((1 - D(p_)) / (b_ ** (1 - D(p_)) - a_ ** (1 - D(p_))))
+        if not (worst_h <= 1e-9 and abs(n1 - norm_ref) <= 1e-9 * abs(norm_ref)):
+            ctx.violation("history", f"after editing the spectrum object ({what} -> {val}) Spectra still samples / normalises for the earlier spectrum: max |F - u| = {worst_h:.3e}, norm {n1!r} (expected {norm_ref!r}) for index {spc.index}, bounds ({spc.lower_bound}, {spc.upper_bound})", wit)
     # N = 0 and N = 1 for power law
     for N in (0, 1, 2):
         cfg = NssConfig()
@@ -183,7 +215,7 @@ def run(ctx):
     ctx.observe("ill_conditioned_index_cases_judged_with_widened_band", nobs_ill)
     ctx.observe("accepted_by_log_energy_band_1e-12", nrepr)
     ctx.count("contracts", ncontract["n"])
-    for m in ("mono", "bounds", "product", "cdf", "monotone", "no-raise", "contracts"):
+    for m in ("mono", "bounds", "product", "cdf", "monotone", "no-raise", "contracts", "history"):
         ctx.require(m)
     return ctx.finish(
         rule="(index, lower, upper) from a boundary catalogue (index in {0,.5,.999,1,1.001,...,4} x 5 bounds) plus seeded random; per configuration 35 uniform numbers (14 hostile incl. 0, denormals, 1-2^-53, 1; grid; random) through the RNG stub and 40 from the real generator observed by the RNG spy; a case is one distinct (index, bounds, u)",
